@@ -34,7 +34,8 @@ RULE = (
     "non-trivial = |finite difference| exceeds 10x the comparison tolerance (the output really depends on the coordinate); "
     "for every entry additionally: the same call evaluated twice reproduces value and gradient (bit for bit for the "
     "loss x mask-argument-subset x mask-dtype entries) and every argument (fixed images, masks of every dtype, module "
-    "buffers, differentiated inputs) keeps its bytes and autograd _version across the calls"
+    "buffers, differentiated inputs) keeps its bytes and autograd _version across the calls; a sub-menu repeats the "
+    "comparison with the differentiated input as a non-contiguous leaf or a non-contiguous (transposed / step-sliced) view of a leaf"
 )
 EXPLANATION = "full-Jacobian-row finite-difference check of every listed differentiable operation on the real code, with repeat-call and argument-fingerprint guards"
 ASSUMPTIONS = [
@@ -1623,6 +1624,87 @@ def _mk_maskarg_entries():
 
 _mk_maskarg_entries()
 
+
+# ---- memory layout of the differentiated input: non-contiguous leaf / non-contiguous view of a leaf -------------------
+LAYOUT_OPS = ("mse_loss", "lcc_loss", "dice_loss", "tversky_index", "grid_sample.data", "grid_sample.grid", "warp_image.flow", "expv", "spatial_derivatives", "evaluate_cubic_bspline", "jacobian_det")
+LAYOUT_FORMS = ("noncontiguous-leaf", "transposed-view-of-leaf", "step-sliced-view-of-leaf")
+
+
+def _layout_input(values, form):
+    """-> (leaf to differentiate, tensor handed to the operation); same values as `values`, other strides."""
+    v = values.detach().double()
+    if form == "noncontiguous-leaf":
+        lf = v.transpose(-1, -2).contiguous().transpose(-1, -2).detach().requires_grad_(True)
+        assert not lf.is_contiguous() or min(v.shape[-2:]) == 1
+        return lf, lf
+    if form == "transposed-view-of-leaf":
+        lf = v.transpose(-1, -2).contiguous().detach().requires_grad_(True)
+        return lf, lf.transpose(-1, -2)
+    big = torch.zeros(tuple(v.shape[:-1]) + (2 * v.shape[-1],), dtype=torch.float64)
+    big[..., ::2] = v
+    big[..., 1::2] = 0.37  # never read by the operation: derivative exactly zero, also by finite differences
+    lf = big.detach().requires_grad_(True)
+    return lf, lf[..., ::2]
+
+
+def _mk_layout_entries():
+    for op in LAYOUT_OPS:
+        for form in LAYOUT_FORMS:
+            def b(D, tab, tier, op=op, form=form):
+                U = _U()
+                L_ = _Lf()
+                from deepali.core.grid import Grid
+
+                shape = loss_shape(D, tier)
+                if op in ("mse_loss", "lcc_loss"):
+                    x0, y = _pair(D, tab, tier, 130)
+                    lf, x = _layout_input(x0, form)
+                    kw = {"kernel_size": 3} if op == "lcc_loss" else {}
+                    return Entry(op, OrderedDict(source=lf), lambda: getattr(L_, op)(x, y.detach(), **kw))
+                if op in ("dice_loss", "tversky_index"):
+                    p0 = torch.sigmoid((image(shape, tab, 131, C_=2, N=2) - 1.0) * 2)
+                    t_ = torch.sigmoid((image(shape, tab, 132, C_=2, N=2) - 1.0) * 3)
+                    lf, p_ = _layout_input(p0, form)
+                    lt, t2 = _layout_input(t_, form)
+                    return Entry(op, OrderedDict(input=lf, target=lt), lambda: getattr(L_, op)(p_, t2))
+                gs = grid_shape(D, tier, True)
+                if op == "grid_sample.data":
+                    lf, img = _layout_input(image(grid_shape(D, tier), tab, 133, C_=2), form)
+                    co = gen((1,) + tuple(gs) + (D,), tab, 134, -0.8, 0.8)
+                    return Entry(op, OrderedDict(data=lf), lambda: U.grid_sample(img, co))
+                if op == "grid_sample.grid":
+                    img = image(grid_shape(D, tier), tab, 135, C_=1)
+                    # the coordinate axis is last: transpose / slice the two axes before it
+                    c0 = gen((1,) + tuple(gs) + (D,), tab, 136, -0.8, 0.8).movedim(-1, 1)
+                    lf, c1 = _layout_input(c0, form)
+                    return Entry(op, OrderedDict(grid=lf), lambda: U.grid_sample(img, c1.movedim(1, -1)))
+                if op == "warp_image.flow":
+                    g = Grid(shape=gs)
+                    img = image(gs, tab, 137, C_=1)
+                    lf, f1 = _layout_input(smooth_field(D, gs, tab, 138, amp=0.12), form)
+                    coords = g.coords(dtype=torch.float64).unsqueeze(0)
+                    return Entry(op, OrderedDict(flow=lf), lambda: U.warp_image(img, coords, flow=f1.movedim(1, -1)))
+                if op == "expv":
+                    lf, v = _layout_input(smooth_field(D, gs, tab, 139, amp=0.2), form)
+                    return Entry(op, OrderedDict(flow=lf), lambda: U.expv(v, steps=2))
+                if op == "jacobian_det":
+                    lf, v = _layout_input(smooth_field(D, gs, tab, 140, amp=0.3), form)
+                    return Entry(op, OrderedDict(flow=lf), lambda: U.jacobian_det(v))
+                if op == "spatial_derivatives":
+                    lf, im = _layout_input(image(gs, tab, 141, C_=2), form)
+                    return Entry(op, OrderedDict(data=lf), lambda: U.spatial_derivatives(im, order=1, mode="central"))
+                if op == "evaluate_cubic_bspline":
+                    bs = bspline_shape(D, tier)
+                    cp = U.cubic_bspline_control_point_grid_size(tuple(bs), 2)
+                    lf, c = _layout_input(gen((1, 2) + tuple(cp), tab, 142), form)
+                    return Entry(op, OrderedDict(data=lf), lambda: U.evaluate_cubic_bspline(c, shape=bs, stride=2))
+                raise KeyError(op)
+
+            ENTRIES[f"layout/{op}/{form}"] = (b, (2, 3) if op in ("dice_loss", "grid_sample.grid", "expv") else (2,))
+
+
+_mk_layout_entries()
+
 # loss modules (same menu through the module wrappers)
 MODULE_LOSSES = (
     ("Dice", {}, "seg"), ("NCC", {}, "img"), ("LCC", {"kernel_size": 3}, "img"), ("WLCC", {"kernel_size": 3}, "img"), ("L1ImageLoss", {}, "img"),
@@ -1702,6 +1784,7 @@ def bounds(tier):
         "grid_shapes": {"D2": list(grid_shape(2, tier)), "D2_small": list(grid_shape(2, tier, True)), "D3": list(grid_shape(3, tier)), "D3_small": list(grid_shape(3, tier, True))},
         "step_and_rtol": {k: list(v) for k, v in STEP.items()},
         "tables": 1 if tier == "quick" else 2,
+        "layout_entries": {"operations": list(LAYOUT_OPS), "forms": list(LAYOUT_FORMS)},
         "mask_argument_entries": {"losses": len(MASKARG_LOSSES), "wlcc_subsets": 7, "dtype_forms": list(MASKARG_DFORMS)},
         "depth": 1,
     }
